@@ -18,7 +18,7 @@ theorem C05_tolerance_exact :
 theorem C05_infix_left_error (fuel : Nat) (op : Bytes) (l r : Option Expr) (s s1 : ES) (e : Err)
     (hl : evalExpr fuel l s = (.err e, s1)) (hd : e.direct = false) :
     evalInfix (fuel + 1) op l r s = (.err e, s1) := by
-  simp [evalInfix, bind, attempt, hl, hd, throwErr]
+  simp [evalInfix, bind, attempt, getS, hl, hd, throwErr]
 
 /-- … and the right operand likewise, once the left one has been evaluated and did not short-circuit -/
 theorem C05_infix_right_error (fuel : Nat) (op : Bytes) (l r : Option Expr) (s s1 s2 : ES) (v : Val) (e : Err)
@@ -32,32 +32,32 @@ theorem C05_infix_right_error (fuel : Nat) (op : Bytes) (l r : Option Expr) (s s
       cases h : isTruthy v
       · exact absurd ⟨rfl, h⟩ h1
       · rfl
-    simp [evalInfix, bind, attempt, hl, hr, hd, throwErr, pure, this]
+    simp [evalInfix, bind, attempt, getS, hl, hr, hd, throwErr, pure, this]
   · by_cases ho : op = [124, 124]
     · subst ho
       have : isTruthy v = false := by
         cases h : isTruthy v
         · rfl
         · exact absurd ⟨rfl, h⟩ h2
-      simp [evalInfix, bind, attempt, hl, hr, hd, throwErr, pure, this]
-    · simp [evalInfix, bind, attempt, hl, hr, hd, throwErr, pure, ha, ho]
+      simp [evalInfix, bind, attempt, getS, hl, hr, hd, throwErr, pure, this]
+    · simp [evalInfix, bind, attempt, getS, hl, hr, hd, throwErr, pure, ha, ho]
 
 /-- under an operator outside the tolerant list even an unknown identifier is an error -/
 theorem C05_infix_unknown_not_tolerated (fuel : Nat) (op : Bytes) (l r : Option Expr) (s s1 : ES) (e : Err)
     (hl : evalExpr fuel l s = (.err e, s1)) (hop : op ∉ tolerantOps) :
     evalInfix (fuel + 1) op l r s = (.err e, s1) := by
-  simp [evalInfix, bind, attempt, hl, throwErr, hop]
+  simp [evalInfix, bind, attempt, getS, hl, throwErr, hop]
 
 /-- `!x`, `if (x)`, `else if (x)`: only an unknown identifier is tolerated -/
 theorem C05_prefix_error (fuel : Nat) (t : Token) (op : Bytes) (r : Option Expr) (s s1 : ES) (e : Err)
     (h : evalExpr fuel r s = (.err e, s1)) (hd : e.direct = false) :
     evalExpr (fuel + 1) (some (.pre t op r)) s = (.err e, s1) := by
-  simp [evalExpr, bind, attempt, h, hd, throwErr]
+  simp [evalExpr, bind, attempt, getS, h, hd, throwErr]
 
 theorem C05_if_error (fuel : Nat) (c : Option Expr) (bl : Block) (elifs els) (s s1 : ES) (e : Err)
     (h : evalExpr fuel c s = (.err e, s1)) (hd : e.direct = false) :
     evalIf (fuel + 1) c bl elifs els s = (.err e, s1) := by
-  simp [evalIf, bind, attempt, h, hd, throwErr]
+  simp [evalIf, bind, attempt, getS, h, hd, throwErr]
 
 /-- a failing element fails the array literal / the argument list (nothing is skipped) -/
 theorem C05_exprs_error (fuel : Nat) (x : Option Expr) (rest : List (Option Expr)) (s s1 : ES) (e : Err)
